@@ -570,7 +570,7 @@ void run_C16(void) {
   if (negacyclic_selfcheck(G.seed)) harness_fail("oracle self-check failed");
   // dimension weights: small N dominate; every N is visited
   static const uint64_t WN[] = {2, 4, 4, 8, 8, 16, 16, 32, 64, 64, 128, 256, 512, 1024, 2048, 4096, 8192, 16384, 32768, 65536};
-  const unsigned nprog = th ? 6000 : 400;
+  const unsigned nprog = th ? 60000 : 1600;
   for (unsigned p = 0; p < nprog; p++) {
     const uint64_t N = WN[p % ARRAY_LEN(WN)];
     const int len = N <= 1024 ? 5 + (int)(mix64(p) % 36) : 5 + (int)(mix64(p) % 12);
